@@ -88,9 +88,13 @@ def hash_completeness(ctx, rule='A8'):
            'equality compares the structural hash of both operands', short(rr[0]) if rr else 'missing')
     same = ctx.fn(f'{DSG}.is_same')
     rr = returns_of(same)
-    last = rr[-1] if rr else None
-    ok = last is not None and isinstance(last.value, ast.Compare) and \
-        {norm(last.value.left), norm(last.value.comparators[0])} == {'self.fingerprint()', f'{same.params[1]}.fingerprint()'}
+    fps = {'self.fingerprint()', f'{same.params[1]}.fingerprint()'}
+    cmp_rets = [r for r in rr if isinstance(r.value, ast.Compare) and len(r.value.ops) == 1 and
+                isinstance(r.value.ops[0], ast.Eq) and {norm(r.value.left), norm(r.value.comparators[0])} == fps]
+    others = [r for r in rr if r not in cmp_rets]
+    last = cmp_rets[0] if cmp_rets else (rr[-1] if rr else None)
+    # every other way out answers "not the same" (cheap size tests)
+    ok = bool(cmp_rets) and all(isinstance(r.value, ast.Constant) and r.value.value is False for r in others)
     ctx.ob(rule, fkey(same, rule, 'is-same-compares-both-fingerprints'), ok, same.where,
            'is_same compares the fingerprints of both graphs', short(last) if last else 'missing')
 
